@@ -1,7 +1,8 @@
 """Helpers of the C17 check (missing and empty geometries are inert).
 
 * the catalogue of inert elements of every kind (missing / empty / NaN-only /
-  inf-only) and their classification,
+  inf-only / NaN and +-inf mixed: for points every mixture per coordinate) and their
+  classification,
 * generators of non-inert base elements with arbitrary (non-exact) floats,
 * the placements of inert rows (first, last, a whole R-tree page, a whole Dask
   partition, interleaved, all rows),
@@ -21,7 +22,8 @@ INF = float('inf')
 # inert elements
 # --------------------------------------------------------------------------
 def classify(el):
-    """'missing' | 'empty' | 'nan' | 'inf' for an inert element, None otherwise"""
+    """'missing' | 'empty' | 'nan' | 'inf' | 'mixed' for an inert element, None otherwise
+    ('mixed': no finite coordinate, NaN and infinite coordinates side by side)"""
     if el is None:
         return 'missing'
     cs = G.flat_coords(el)
@@ -29,11 +31,46 @@ def classify(el):
         return 'empty'
     if any(math.isfinite(c) for c in cs):
         return None
-    return 'nan' if all(c != c for c in cs) else 'inf'
+    if all(c != c for c in cs):
+        return 'nan'
+    return 'inf' if all(c == c for c in cs) else 'mixed'
 
 
-def inert_pool(kind, with_inf=False):
-    """inert elements the constructors accept, by class"""
+NONFINITE = [NAN, INF, -INF]
+
+
+def point_mixtures():
+    """every point without a finite coordinate: NaN / +inf / -inf independently in x and y"""
+    return [[a, b] for a in NONFINITE for b in NONFINITE]
+
+
+def mixed_pool(kind):
+    """elements whose coordinates are ALL non-finite but not all equal: NaN, +inf and -inf side by
+    side, inside one vertex and from vertex to vertex (points: all nine mixtures)"""
+    l4a = [-INF, NAN, INF, NAN]
+    l4b = [NAN, -INF, NAN, INF]
+    l6 = [-INF, NAN, NAN, INF, INF, -INF]
+    l2 = [-INF, NAN]
+    # closed rings; r8a is one through which finite points have a non-zero winding number
+    r8a = [-INF, NAN, INF, NAN, INF, INF, -INF, NAN]
+    r8b = [NAN, -INF, INF, NAN, -INF, INF, NAN, -INF]
+    r10 = [INF, NAN, NAN, NAN, -INF, INF, NAN, -INF, INF, NAN]
+    n8 = [NAN] * 8
+    i8 = [-INF, -INF, INF, -INF, INF, INF, -INF, -INF]
+    return {
+        'point': point_mixtures(),
+        'multipoint': [l2, l4a, l4b, l6, [NAN, INF, NAN, NAN], [INF, INF, NAN, NAN]],
+        'line': [l4a, l4b, l6, l2, [INF, INF, NAN, NAN, -INF, -INF]],
+        'ring': [r8a, r8b, r10],
+        'multiline': [[l4a], [l4b, l6], [l6, []], [[NAN] * 4, l4a], [[], l2, l4b]],
+        'polygon': [[r8a], [r8b], [r10, r8b], [r8a, n8], [n8, r8b], [i8, r8a], [r8b, []]],
+        'multipolygon': [[[r8a]], [[r8b]], [[r10], [r8b, n8]], [[n8], [r8a]], [[i8], [r8b]],
+                         [[], [r8a]]],
+    }[kind]
+
+
+def inert_pool(kind, with_inf=False, with_mixed=None):
+    """inert elements the constructors accept, by class; with_mixed defaults to with_inf"""
     n2, n4, n8 = [NAN] * 2, [NAN] * 4, [NAN] * 8
     pool = {
         'point': [None, n2],
@@ -56,6 +93,8 @@ def inert_pool(kind, with_inf=False):
             'polygon': [[i8]],
             'multipolygon': [[[i8]]],
         }[kind]
+    if with_mixed if with_mixed is not None else with_inf:
+        pool = pool + mixed_pool(kind)
     return pool
 
 
